@@ -115,6 +115,7 @@ def _rq_events(args):
         base = rnd.randrange(1, 6) * size
         spans = []
         genes = []
+        gaps = []
         for k in range(rnd.randrange(1, 7)):
             s = max(0, base + rnd.randrange(-6, 7) + rnd.choice([0, 0, -size, size, -3000, 2000]))
             e = s + rnd.choice([1, 2, 5, 1000, size - 1, size, size + 1])
@@ -126,12 +127,22 @@ def _rq_events(args):
             txs = [tx]
             if rnd.random() < 0.3 and e - s > 3:  # second, shorter isoform in another bin
                 txs.append(TranscriptInterval([s + 1], [e - 1], tx.strand))
+            elif rnd.random() < 0.35:
+                # a second isoform several bins downstream: the gene's span has a gap no child (hence no child bin) covers
+                s2 = e + rnd.choice([size, 2 * size, 3 * size]) + rnd.randrange(0, 3000)
+                txs.append(TranscriptInterval([s2], [s2 + rnd.choice([5, 900])], tx.strand))
+                gaps.append((e, s2))
+                e = txs[-1].end
             genes.append(GeneInterval(txs))
             spans.append([s, e])
-        coll = AnnotationCollection(genes=genes, start=0, end=base + 4 * size)
-        for _q in range(6):
+        coll = AnnotationCollection(genes=genes, start=0, end=max([base + 4 * size] + [sp[1] for sp in spans]))
+        for _q in range(6 + 3 * len(gaps)):
             qs = max(0, base + rnd.choice([-size, -7, -2, -1, 0, 1, 2, 5]) + rnd.choice([0, 0, size]))
             qe = qs + rnd.choice([1, 2, 3, 8, size - 1, size, size + 1, 2 * size])
+            if _q >= 6:  # a query inside the uncovered middle of a gene
+                ga, gb = gaps[(_q - 6) % len(gaps)]
+                qs = rnd.randrange(ga + 1, gb - 1)
+                qe = min(gb - 1, qs + rnd.choice([1, 50, 2000, size]))
             qe = min(qe, coll.end)
             if qs >= qe:
                 continue
